@@ -1,6 +1,8 @@
 import CEProofs.C10Knn
 import CEProofs.C10Gauss
 import CEProofs.C10Kde
+import CEProofs.C10Poisson
+import CEProofs.C10Geom
 #print axioms CE.Knn.row_perm_mi
 #print axioms CE.Knn.row_perm_cmi
 #print axioms CE.Knn.row_perm_mi_idx
@@ -24,3 +26,24 @@ import CEProofs.C10Kde
 #print axioms CE.Kde.entropy_formula
 #print axioms CE.Kde.mi_def
 #print axioms CE.Kde.cmi_def
+#print axioms CE.PoissonMI.square_eq_matOfFn
+#print axioms CE.PoissonMI.poissonMI_closed_form
+#print axioms CE.PoissonMI.poissonMI_closed_form_list
+#print axioms CE.PoissonMI.poissonMI_var_perm
+#print axioms CE.PoissonMI.poissonMI_var_equiv
+#print axioms CE.PoissonMI.poissonMI_var_perm_list
+#print axioms CE.PoissonMI.poissonMI_swap_xy
+#print axioms CE.PoissonMI.poissonMI_col_perm
+#print axioms CE.PoissonMI.poissonMIVec_var_perm
+#print axioms CE.PoissonMI.poissonMIVec_swap_xy
+#print axioms CE.PoissonMI.entropyVec_permSymm
+#print axioms CE.PoissonMI.poissonMI_symm_needed
+#print axioms CE.Geom.isRot_colperm
+#print axioms CE.Geom.corrColPermInv_of_rot
+#print axioms CE.Geom.H_colperm_partial
+#print axioms CE.Geom.geomMI_swap_xy_partial
+#print axioms CE.Geom.clamp_geomMI_swap_xy_partial
+#print axioms CE.Geom.geomCMI_swap_xy_partial
+#print axioms CE.Geom.geomCMI_z_col_perm_partial
+#print axioms CE.Geom.geomMI_row_perm
+#print axioms CE.Geom.geomCMI_row_perm
